@@ -46,7 +46,6 @@ NOT_DECIDED = [
     'escapes; none of: address/hex/ASCII column fidelity, start address / flag combinations, diff highlighting, zero-line collapsing, iovec partition independence',
     'the composition parse(format(x, mask)) == (x, mask) for unbounded length: proved as step lemmas + classification + brackets (induction stated, not machine-checked); '
     'machine-checked composition only for length <= 3 (quick) / <= 5 (thorough), labelled bounded',
-    'format_data_string(const std::string&, const std::string*, flags) (size check + forwarding) is not under contract',
     'numeral text -> value (strtoull/strtod/strtof), ALLOW_FILES on, src/ParseData.cc (command-line wrapper: file I/O only)',
     'the high byte of the 16-bit code unit of a character >= 0x80 inside \'...\' is carved out of the step contract and judged by its own group (parse_data_string.wide_char)',
 ]
@@ -92,9 +91,9 @@ def parser_rules(ret_stmt, nret, whole):
         Rule(r'\bdata\.append\(\(const char\*\)&value, ([^;]+)\);', r'C09_append_bytes(data, (const char*)&value, \1);', regex=True, count='+'),
         Rule(r'\bdata\.append\(1, ([^;]+)\);', r'out_push_back(data, \1);', regex=True, count='+'),
         Rule(r'\bdata\.size\(\)', 'out_size(data)', regex=True, count=2),
-        Rule(r'\bstrtoull\(', 'C09_strtoull(', regex=True, count='+'),
-        Rule(r'\bstrtod\(', 'C09_strtod(', regex=True, count='+'),
-        Rule(r'\bstrtof\(', 'C09_strtof(', regex=True, count='+'),
+        Rule(r'\bstrtoull\(', 'C09_strtoull(', regex=True, count=None),
+        Rule(r'\bstrtod\(', 'C09_strtod(', regex=True, count=None),
+        Rule(r'\bstrtof\(', 'C09_strtof(', regex=True, count=None),
         Rule(r'\bfilename\.append\(1, ([^;]+)\);', r'vstr_push_back(&filename, \1);', regex=True, count=1),
         Rule('filename.clear();', 'vstr_clear(&filename);', count=1),
         Rule(r'return data;', ret_stmt, count='+'),
@@ -151,7 +150,7 @@ SKEL_LOOP = """
 __CPROVER_assigns(in, chr, reading_string, reading_unicode_string, reading_comment, reading_multiline_comment, reading_high_nybble,
                   big_endian, mask_enabled, g_returned, g_n, g_c0, g_c1, g_c2, g_c3,
                   g_st_calls, g_st_arg, g_st_end, g_st_base, g_st_kind, g_num, g_dbl, g_flt,
-                  data->size, data->nw, __CPROVER_object_upto(data->w, C09_WIN) PDS_LOOP_MASK_ASSIGNS)
+                  data->size, data->nw, data->first, __CPROVER_object_upto(data->w, C09_WIN) PDS_LOOP_MASK_ASSIGNS)
 __CPROVER_loop_invariant(__CPROVER_same_object(in, s) && __CPROVER_POINTER_OFFSET(in) <= s_size)
 __CPROVER_loop_invariant(verif_exc == 0 && !reading_filename && !allow_files && g_load_calls == 0 && !g_returned)
 __CPROVER_loop_invariant(PDS_B01(reading_string) && PDS_B01(reading_unicode_string) && PDS_B01(reading_comment) && PDS_B01(reading_multiline_comment))
@@ -228,13 +227,13 @@ __CPROVER_loop_invariant(!is_printable ==> (g_w < size && !FDS_PRINTABLE(data[g_
 __CPROVER_decreases(size - z)
 """
 FMT_LOOP2 = """
-__CPROVER_assigns(x, mask_enabled, ret->size, ret->nw, __CPROVER_object_upto(ret->w, C09_WIN))
-__CPROVER_loop_invariant(x <= size && ret->size >= 1 && ret->size <= 1 + 5 * x && (mask == 0 ==> ret->size <= 1 + 2 * x) && ret->nw <= 5)
+__CPROVER_assigns(x, mask_enabled, OUT_ASSIGNS_NONEMPTY(ret))
+__CPROVER_loop_invariant(x <= size && ret->size >= 1 && ret->size <= 1 + 5 * x && (mask == 0 ==> ret->size <= 1 + 2 * x) && OUT_WINDOW_LE(ret, 5))
 __CPROVER_decreases(size - x)
 """
 FMT_LOOP3 = """
-__CPROVER_assigns(x, mask_enabled, ret->size, ret->nw, ret->first, __CPROVER_object_upto(ret->w, C09_WIN))
-__CPROVER_loop_invariant(x <= size && ret->size >= 2 * x && ret->size <= 3 * x && (mask == 0 ==> ret->size == 2 * x) && ret->nw <= 3)
+__CPROVER_assigns(x, mask_enabled, OUT_ASSIGNS(ret))
+__CPROVER_loop_invariant(x <= size && ret->size >= 2 * x && ret->size <= 3 * x && (mask == 0 ==> ret->size == 2 * x) && OUT_WINDOW_LE(ret, 3))
 __CPROVER_decreases(size - x)
 """
 
@@ -256,6 +255,51 @@ def format_unit(ctx, src):
     # every use of the result string must have been rewritten to a model call (ret as a pointer argument only)
     if re.search(r'\bret\s*(\+=|\.)', u.parts[-1]):
         raise ExtractionBreak('format_data_string: unrewritten uses of the result string')
+    u.write()
+    return u
+
+
+def wrapper_unit(ctx, src):
+    """format_data_string(const std::string&, const std::string*, flags): the size check and the forwarding call"""
+    u = Unit(ctx, 'fds_wrapper')
+    u.function(src, CC, r'string format_data_string\(const string& data, const string\* mask, uint64_t flags\)',
+               new_header='void format_data_string_str(OUT_STR* ret, const vstr* data, const vstr* mask, uint64_t flags)', ret_zero='',
+               rules=[Rule('mask->size()', 'vstr_size(mask)', count=None), Rule('data.size()', 'vstr_size(data)', count=None),
+                      Rule('data.data()', 'data->data', count=None), Rule('mask->data()', 'mask->data', count=None),
+                      Rule(r'return format_data_string\(([^;]*)\);', r'{ format_data_string(ret, \1); return; }', regex=True, count=1)])
+    u.write()
+    return u
+
+
+FD_FLAGS = ['OFFSET_8_BITS', 'OFFSET_16_BITS', 'OFFSET_32_BITS', 'OFFSET_64_BITS']
+
+
+def lines_unit(ctx, src):
+    """hex dump: the line loop of format_data (header + geometry statements + width selection + interior test), assembled from
+    snippets of the current text; the rest of the loop body is not represented"""
+    uh = Unit(ctx, 'fd_flags')
+    u = Unit(ctx, 'fd_lines')
+    uh.raw('enum { %s };' % ', '.join('PrintDataFlags_%s = %s' % (f, u.snippet(src, HH, r'enum PrintDataFlags \{[^}]*?\b%s = (\w+),' % f, group=1)) for f in FD_FLAGS))
+    uh.write(suffix='.h', scan=False)
+    PF = [Rule(r'PrintDataFlags::(\w+)', r'PrintDataFlags_\1', regex=True, count=None), Rule(r'max<int64_t>\(', 'C09_MAX_I64(', regex=True, count=None)]
+    pre = u.snippet(src, CC, r'(uint64_t end_address = [^;]*;(?:\s*uint64_t \w+ = [^;]*;)*)', group=1, rules=PF)
+    width = u.snippet(src, CC, r'int width_digits;\s*(if \(flags & PrintDataFlags::OFFSET_8_BITS\) \{.*?\} else \{\s*width_digits = \w+;\s*\})', group=1, rules=PF)
+    FOR = r'for \(uint64_t (\w+) = ([^;]*);\s*([^;]*);\s*([^){]*)\) \{\s*((?:[^{};]*;\s*)*?uint8_t line_bytes = [^;]*;)'
+    var, init, cond, step, geom = (u.snippet(src, CC, FOR, group=k, rules=PF) for k in (1, 2, 3, 4, 5))
+    interior = u.snippet(src, CC, r'if \(collapse_zero_lines && (\([^&]*\) && \([^&]*\)) &&\s*!memcmp', group=1, rules=PF)
+    if var == 'line_start_address':
+        var_ok = 'line_start_address == FD_LINE_START(g_i)'
+    elif var == 'line_index':
+        var_ok = 'line_index == g_i'
+    else:
+        raise ExtractionBreak('format_data: the line loop runs over %r (expected line_start_address or line_index)' % var)
+    u.raw('void fd_line_loop(uint64_t start_address, uint64_t total_size, uint64_t flags)\n{\n  %s\n  int width_digits;\n  %s\n  g_width = width_digits;\n'
+          '  g_i = 0; g_consumed = 0; g_hits = 0;\n  for (uint64_t %s = %s; %s; %s)\n'
+          '  __CPROVER_assigns(%s, g_i, g_consumed, g_hits, g_col, g_interior)\n  FD_LOOP_INVARIANT\n  __CPROVER_loop_invariant(%s)\n  __CPROVER_decreases(FD_NLINES - g_i)\n'
+          '  {\n    %s\n    g_interior = %s;\n    FD_LINE_CHECKS\n  }\n}'
+          % (pre, width, var, init, cond, step, var, var_ok, geom, interior))
+    u.functions.append({'file': CC, 'cxx_header': 'void format_data(std::function<void(const void*, size_t)>, const iovec*, size_t, uint64_t, const iovec*, size_t, uint64_t) :: line loop (header, geometry statements, width selection, interior test)',
+                        'c_header': 'void fd_line_loop(uint64_t start_address, uint64_t total_size, uint64_t flags)', 'line': 0})
     u.write()
     return u
 
@@ -282,7 +326,9 @@ def plan(ctx):
     usk = skeleton_unit(ctx, src)
     uf = format_unit(ctx, src)
     ufs = fstep_unit(ctx, src)
-    ctx.functions_under_contract = up.functions + usk.functions + us.functions + uf.functions + ufs.functions
+    uw = wrapper_unit(ctx, src)
+    ul = lines_unit(ctx, src)
+    ctx.functions_under_contract = up.functions + usk.functions + us.functions + uf.functions + ufs.functions + uw.functions + ul.functions
     groups = []
     RT = lambda mode: Replay(driver='C09/datastring.cc', mode=mode, sources=ALL_LIB)
     for mn, d in (('mask', []), ('nomask', ['MASK_NULL'])):
@@ -297,6 +343,13 @@ def plan(ctx):
         groups.append(Group(name='format_data_string.classification[%s]' % mn, harness='harness/C09/format.c', entry='h_format',
                             function='format_data_string', enforce='format_data_string', loops=True, kind='loop-contract', defines=d + ['C09_TAIL_MODEL'], first='cadical',
                             timeout=300, min_post=5, replay=RT('classify')))
+    for mn, d in (('mask', []), ('nomask', ['MASK_NULL'])):
+        groups.append(Group(name='format_data_string.string_overload[%s]' % mn, harness='harness/C09/wrapper.c', entry='h_wrapper',
+                            function='format_data_string(const std::string&, const std::string*, uint64_t)', enforce='format_data_string_str',
+                            defines=d, min_post=3, replay=RT('overload')))
+    groups.append(Group(name='format_data.line_geometry', harness='harness/C09/lines.c', entry='h_lines', function='format_data (line loop)',
+                        enforce='fd_line_loop', loops=True, kind='loop-contract', timeout=300, min_post=8, first='cvc5',
+                        replay=Replay(driver='C09/datastring.cc', mode='hexdump', sources=ALL_LIB, small_define='VERIF_SMALL')))
     SIM = 'harness/C09/sim.c'
     for entry, name, fn, mode in [('l_sim_quoted', 'roundtrip.step[quoted]', 'format_data_string quoted-form loop body / parse_data_string loop body', 'sim_quoted'),
                                   ('l_sim_hex', 'roundtrip.step[hex]', 'format_data_string hex-form loop body / parse_data_string loop body', 'sim_hex'),
@@ -305,6 +358,14 @@ def plan(ctx):
                                   ('l_wide_char', 'parse_data_string.wide_char', 'parse_data_string loop body', 'wide_char')]:
         groups.append(Group(name=name, harness=SIM, entry=entry, function=fn, kind='lemma', min_post=3, timeout=300,
                             cbmc_flags=['--unwind', '6', '--unwinding-assertions'], replay=RT(mode)))
+    # thorough: the host-dependent parts again under a big-endian host model (the bytes a construct appends must not depend on the host)
+    import copy
+    for g in list(groups):
+        if g.name.startswith('parse_data_string.step[') or g.name in ('parse_data_string.wide_char', 'roundtrip.step[quoted]', 'roundtrip.step[hex]'):
+            g2 = copy.deepcopy(g)
+            g2.big_endian = True
+            g2.tier = 'thorough'
+            groups.append(g2)
     for n, tier in ((3, 'quick'), (5, 'thorough')):
         unwind = 2 + 5 * n + 2
         groups.append(Group(name='roundtrip.bounded[len<=%d]' % n, harness='harness/C09/roundtrip.c', entry='b_roundtrip',
